@@ -190,5 +190,5 @@ MCSpec == MCInit /\ [][MCNext]_mvars
 Bound == nops <= MaxOps
 View == <<rvars, dvars, obs, quiet, nops>>
 
-EmitScripts == (quiet /\ Idle /\ Len(hist) > 1) => PrintT(<<"SCRIPT", ToJson([c |-> C, regamt |-> RegAmt, regmin |-> RegMin, ops |-> hist])>>)
+EmitScripts == (quiet /\ Idle /\ Len(hist) > 2 /\ (answered \/ nblk > 0 \/ ntick > 0)) => PrintT(<<"SCRIPT", ToJson([c |-> C, regamt |-> RegAmt, regmin |-> RegMin, ops |-> hist])>>)
 =============================================================================
